@@ -77,6 +77,14 @@ def garbage_programs(pid, seed, count):
         out.append(dict(id="%s-g-%d" % (pid, i), role=rnd.choice(["server", "client"]), pmce=rnd.random() < 0.5, limit=rnd.choice([0, 0, 10]),
                         rbuf=rnd.choice(RBUFS), hmode="default", herrAt=0, frames=[], raw=raw.hex(), cut=None,
                         chunk=rnd.choice(["whole", "byte", "rand"]), reads=[dict(op="RM", k=0)] * 4, seed=rnd.randrange(1, 1 << 30), tail=3))
+    # floods: many tiny frames of one kind; memory must stay in proportion to the bytes received over the WHOLE run
+    # (e.g. a decompressor that is not recycled after a corrupt compressed message costs tens of kilobytes per 3-byte frame)
+    floods = [("c20107", True), ("c2020300", True), ("8900", False), ("8a00", False), ("c10100", True), ("820100", False)]
+    for j, (unit, pm) in enumerate(floods):
+        for role in ("client",):
+            out.append(dict(id="%s-flood-%d" % (pid, j), role=role, pmce=pm, limit=0, rbuf=rnd.choice([0, 125, 4096]), hmode="default", herrAt=0,
+                            frames=[], raw=unit * 400, cut=None, chunk=rnd.choice(["whole", "rand"]), reads=[dict(op="RM", k=0)] * 410,
+                            seed=rnd.randrange(1, 1 << 30), tail=3, allocall=True))
     return out
 
 
